@@ -467,6 +467,18 @@ theorem gen_bookkeeping :
     Gen.rebuildBefore = ["free()"] ∧ Gen.freeClears ≠ some false ∧ Gen.freeMarksFirstBuild ≠ some false ∧
     Gen.setIndexSetsFrees ≠ some false := by decide
 
+/-- **gen_configuration**: the configuration calls, as read from the source on this run, *replace* the stored
+    configuration by their arguments unconditionally — `setNeighbours` clears before it inserts, `setIndexSets` and the
+    five-argument constructor hand their `neighbours` argument on whatever it contains (an empty vector = the omitted
+    argument switches back to the ring), `setIndexSets` stores both index sets and the communicator, `setIncludeSelf`
+    its argument.  This is what `World.step` / `Config.step` (hence `config_in_force`) say; a statement that was put
+    under a condition, dropped or made partial turns the fact into `some false` (one the reader cannot locate is
+    `none` and left to the differential run). -/
+theorem gen_configuration :
+    Gen.setNeighboursReplaces ≠ some false ∧ Gen.setIndexSetsReplacesHints ≠ some false ∧
+    Gen.ctorSetsHints ≠ some false ∧ Gen.setIndexSetsSetsBothSets ≠ some false ∧
+    Gen.setIndexSetsSetsComm ≠ some false ∧ Gen.setIncludeSelfAssigns ≠ some false := by decide
+
 /-- the generated `isSynced()` / rebuild test are the ones `synced_iff` speaks about -/
 theorem faithful_isSynced (r : F.RankW) :
     r.isSynced = r.ri.isSynced (r.obj r.srcObj).seq (r.obj r.tgtObj).seq := rfl
@@ -587,6 +599,68 @@ theorem history_rebuild_spec (w0 : F.World) (h0 : ∀ r ∈ w0, r.ri.firstBuild 
   · exact Or.inl h
   · refine Or.inr ⟨⟨?_, fun x hx => (hsym p hp x hx).1⟩, h⟩
     rw [F.senders_eq_nbIds w.sys hsym hp]
+
+/-- **config_in_force**: after *any* history (all events, also `setIncludeSelf`/`setNeighbours`, any interleaving with
+    resizes, frees and rebuilds) that returns, every rank works with the configuration of the *last* calls addressed to
+    it: index set objects and hints of its last `setIndexSets` (hints: or of a later `setNeighbours`), `includeSelf` of
+    its last `setIncludeSelf`, else what it was constructed with.  Nothing of an earlier configuration survives a
+    call that sets it — in particular hints do not survive a `setIndexSets` without hints. -/
+theorem config_in_force (w0 : F.World) (evs : List F.Ev) (w : F.World) (hr : F.World.run w0 evs = some w) :
+    w.length = w0.length ∧
+    ∀ p, p < w0.length → (w.getD p default).config = F.Config.after p (w0.getD p default).config evs :=
+  F.run_config evs hr
+
+/-- rank 0 is constructed with hints [1], gets hints [1,2] by `setNeighbours`, is re-targeted by `setIndexSets` without
+    hints, and `setIncludeSelf(true)` is called: objects (1,0), includeSelf, no hints; rank 1 keeps its hints -/
+example : let w0 : F.World := [{ hints := [1] }, { hints := [0] }, {}]
+    let evs : List F.Ev := [.setNb 0 [1, 2], .resize 0 0 [⟨1, 0, 0, true⟩], .setSets 0 1 0 [], .setIncl 0 true]
+    (F.World.run w0 evs).map (fun w => ((w.getD 0 default).config, (w.getD 1 default).hints))
+      = some (⟨1, 0, true, []⟩, [0]) ∧
+    F.Config.after 0 (w0.getD 0 default).config evs = ⟨1, 0, true, []⟩ := by decide
+
+/-- **history_last_hints_ring**: whatever hints the objects had before — a history whose last hint-setting call on
+    every rank passes no hints (e.g. `setIndexSets(source, target, comm)` on all ranks after a phase with neighbour
+    hints) ends, after the collective rebuild, with the *full* pairwise intersections on every rank and for every
+    other rank: no covering hypothesis is left, the ring visits everybody. -/
+theorem history_last_hints_ring (w0 : F.World) (h0 : ∀ r ∈ w0, r.ri.firstBuild = true) (evs : List F.Ev)
+    (hc : ∀ e ∈ evs, e.core = true) (ign : Bool) (arrivals : Nat → List Nat) (w : F.World)
+    (hr : F.World.run w0 (evs ++ [F.Ev.rebuild ign arrivals]) = some w)
+    (hlast : ∀ p, p < w0.length → (F.Config.after p (w0.getD p default).config evs).hints = [])
+    (hs : w.sys.Strict) (p q : Nat) (hp : p < w.length) (hq : q < w.length) (hpq : q ≠ p) :
+    (w.getD p default).ri.remote.sendList q = spec ((w.sys.rank p).srcPairs ign) ((w.sys.rank q).dstPairs ign) ∧
+    (w.getD p default).ri.remote.recvList q = spec ((w.sys.rank p).dstPairs ign) ((w.sys.rank q).srcPairs ign) := by
+  obtain ⟨hlen, hcfg⟩ := F.run_config _ hr
+  have hnil : ∀ r, r < w.length → nbIds (w.sys.rank r) r = [] := by
+    intro r hr'
+    apply F.nbIds_nil_of_hints
+    have h1 := hcfg r (hlen ▸ hr')
+    have h2 : (w.getD r default).hints = (w.getD r default).config.hints := rfl
+    show (w.getD r default).hints = []
+    rw [h2, h1]
+    simp only [F.Config.after, List.foldl_append, List.foldl_cons, List.foldl_nil, F.Config.step]
+    exact hlast r (hlen ▸ hr')
+  have hsym : F.SymHints w.sys := by
+    intro r hr' x hx
+    rw [hnil r hr'] at hx
+    cases hx
+  exact history_rebuild_spec w0 h0 evs hc ign arrivals w hr hs hsym p q hp hq hpq (Or.inl (hnil p hp))
+
+/-- three ranks; neighbour hints 0–1, 1–2 (rank 0 and 2 share index 30 but do not name each other: after the first
+    rebuild rank 0 has nothing about rank 2); every rank calls `setIndexSets` without hints; the rebuild then gives
+    rank 0 its entry for rank 2 -/
+def exChain : F.World :=
+  [{ o0 := { pairs := [⟨10, 0, 0, true⟩, ⟨30, 1, 0, true⟩] }, hints := [1] },
+   { o0 := { pairs := [⟨10, 0, 1, true⟩, ⟨20, 1, 0, true⟩] }, hints := [0, 2] },
+   { o0 := { pairs := [⟨20, 0, 1, true⟩, ⟨30, 1, 2, true⟩] }, hints := [1] }]
+def exRetarget : List F.Ev := [.rebuild false (fun p => F.senders exChain.sys p), .setSets 0 0 0 [], .setSets 1 0 0 [], .setSets 2 0 0 []]
+
+example : (∀ r ∈ exChain, r.ri.firstBuild = true) ∧ (∀ e ∈ exRetarget, e.core = true) ∧
+    (∀ p, p < exChain.length → (F.Config.after p (exChain.getD p default).config exRetarget).hints = []) := by decide
+
+example : ((F.World.run exChain (exRetarget.take 1)).map fun w => ((w.getD 0 default).ri.remote.sendList 2).map (fun x => (x.loc.g, x.ra)))
+      = some [] ∧
+    ((F.World.run exChain (exRetarget ++ [.rebuild false (fun _ => [])])).map
+      fun w => ((w.getD 0 default).ri.remote.sendList 2).map (fun x => (x.loc.g, x.ra))) = some [(30, 2)] := by decide
 
 /-- **world_synced_iff**: in the faithful world, a rank that is in sync (as it is after every collective rebuild that
     returned, `history_rebuild_fresh`) stays in sync through any sequence of resizes — of any index set object on any
